@@ -144,7 +144,23 @@ fn tree_paths(store: &Arc<Store>, tree: &MergedTree) -> Result<Value, String> {
             Some(Some(TreeValue::Symlink(id))) => format!("l:{}", &id.hex()[..12]),
             Some(Some(_)) => "other".to_string(),
             Some(None) => continue,
-            None => format!("conflict:{}", value.num_sides()),
+            None => {
+                // normal form of a conflict: simplified, adds and removes sorted
+                let simp = value.clone().simplify();
+                let tok = |t: &Option<TreeValue>| match t {
+                    None => "absent".to_string(),
+                    Some(TreeValue::File { id, executable, .. }) => {
+                        format!("{}:{}", if *executable { "x" } else { "-" }, &id.hex()[..12])
+                    }
+                    Some(TreeValue::Symlink(id)) => format!("l:{}", &id.hex()[..12]),
+                    Some(_) => "other".to_string(),
+                };
+                let mut adds: Vec<String> = simp.adds().map(tok).collect();
+                let mut removes: Vec<String> = simp.removes().map(tok).collect();
+                adds.sort();
+                removes.sort();
+                format!("conflict:+{}:-{}", adds.join("+"), removes.join("-"))
+            }
         };
         out.insert(p, json!(v));
     }
@@ -289,7 +305,12 @@ fn run(opts: &Opts) -> Result<Value, String> {
             j["digest"] = json!(d);
         }
         if with_paths {
-            j["paths"] = tree_paths(&store, &tree)?;
+            let paths = tree_paths(&store, &tree)?;
+            // token of the tree modulo the representation of conflicts
+            let mut h: u64 = 0xcbf2_9ce4_8422_2325;
+            fnv(&mut h, paths.to_string().as_bytes());
+            j["norm"] = json!(format!("{h:016x}"));
+            j["paths"] = paths;
         }
         commits.insert(id.hex(), j);
         stack.extend(c.parent_ids().iter().cloned());
